@@ -21,6 +21,10 @@ const stepTimeout = 4 * time.Second
 
 var errCause = errors.New("user navigated away")
 
+// altered is what every sender writes into its message as soon as SendMsg has returned
+// (Altered in Wrap.tla): over a connection the peer still receives what was sent.
+const altered = 95
+
 // clientMD is what the client does with metadata a stream hands it: note it down, then use
 // the map as its own (overwrite, add).  Nothing of that may show in a later read, nothing
 // the handler did to its own maps may show here.
@@ -151,7 +155,23 @@ func runOnce(e *env, tr string, conn grpc.ClientConnInterface, c Case, rng *rand
 	e.srv.register(cl)
 	defer e.srv.unregister(cl)
 
-	base := metadata.NewOutgoingContext(context.Background(), metadata.Pairs("x-call", id, "x-req", strconv.Itoa(c.Req)))
+	base := context.Background()
+	switch c.Mdk {
+	case 0:
+		base = metadata.NewOutgoingContext(base, metadata.Pairs("x-call", id, "x-req", strconv.Itoa(c.Req)))
+	case 2: // the caller is a handler handing its own context on: that metadata is not the call's
+		base = metadata.NewIncomingContext(base, metadata.Pairs("x-call", outerCallID, "x-req", strconv.Itoa(outerReq)))
+	}
+	if c.Mdk != 0 {
+		e.srv.mu.Lock()
+		e.srv.current = cl
+		e.srv.mu.Unlock()
+		defer func() {
+			e.srv.mu.Lock()
+			e.srv.current = nil
+			e.srv.mu.Unlock()
+		}()
+	}
 	var ctx context.Context
 	var cancel context.CancelFunc
 	// x = 1 on the cancel / deadline step: the caller's context carries a cause of its own
@@ -219,6 +239,9 @@ func runOnce(e *env, tr string, conn grpc.ClientConnInterface, c Case, rng *rand
 		case "recv":
 			if r.err == nil {
 				v := valOf(r.got)
+				if v == altered {
+					noteAlias(&t, "sender-write-after-send-seen-by-receiver")
+				}
 				t.Msgs = append(t.Msgs, v)
 				crecvd = append(crecvd, r.got)
 				logf(i, "c", r.op, "msg %d", v)
@@ -302,7 +325,9 @@ func runOnce(e *env, tr string, conn grpc.ClientConnInterface, c Case, rng *rand
 						s, err := conn.NewStream(ctx, streamDesc(c.Shape), methodName(c.Shape))
 						if err == nil {
 							stream = s
-							if err = s.SendMsg(req); err == nil {
+							err = s.SendMsg(req)
+							scribble(req, altered) // the client reuses its request once the send has returned
+							if err == nil {
 								err = s.CloseSend()
 							}
 						}
@@ -335,7 +360,11 @@ func runOnce(e *env, tr string, conn grpc.ClientConnInterface, c Case, rng *rand
 				req := mkReq(c.Shape, st.V)
 				csent = append(csent, req)
 				ch, s := inStep, stream
-				go func() { ch <- cres{op: "send", err: s.SendMsg(req)} }()
+				go func() {
+					err := s.SendMsg(req)
+					scribble(req, altered) // the client reuses its message once the send has returned
+					ch <- cres{op: "send", err: err}
+				}()
 			case "close":
 				if stream == nil {
 					logf(i, "c", "close", "nostream")
@@ -437,6 +466,9 @@ func runOnce(e *env, tr string, conn grpc.ClientConnInterface, c Case, rng *rand
 					switch r.Kind {
 					case "msg":
 						v = r.V
+						if v == altered {
+							noteAlias(&t, "sender-write-after-send-seen-by-receiver")
+						}
 					case "eof":
 						v = 0
 					}
